@@ -172,7 +172,17 @@ fn key_of(spec: &ReqSpec, ep: u32) -> (u32, u8, Vec<Vec<u8>>) {
     // transfers are keyed by (endpoint, method, path); every code that is not a request method is
     // the same "unknown method" as far as a server is concerned
     let method = if (1..=7).contains(&spec.code) { spec.code } else { 0xff };
-    (ep, method, spec.path.clone())
+    // every Uri-Path value of the request counts, the ones that ride among the "extra" options too
+    // (in option order they follow the ones of `path`).  A path with a segment that is not UTF-8 has
+    // no string form: the handler files all such requests of an endpoint and method under the same
+    // key as the empty path (`get_path_as_vec().unwrap_or_default()`) - an observation, not a
+    // finding: the properties quantify over paths that are strings
+    let mut path = spec.path.clone();
+    path.extend(spec.extra.iter().filter(|o| o.0 == 11).map(|o| o.1.clone()));
+    if path.iter().any(|s| std::str::from_utf8(s).is_err()) {
+        path.clear();
+    }
+    (ep, method, path)
 }
 
 fn run_sequence(rep: &mut Report, r: &mut Rng, level: u32, directed_margin: Option<i64>) {
